@@ -35,9 +35,9 @@ REQUIRED_PROBES = ["losses", "reconnects_after_loss", "watchdog_expiry", "stop_r
 
 RTS = [0.5, 1.0, 3.0, 10.0, 30.0]
 EVENTS = {
-    "serial": ["read_error", "write_error", "both_errors", "disconnect", "stop", "wait", "wait"],
+    "serial": ["read_error_stop_in_callback", "read_error", "write_error", "both_errors", "disconnect", "stop", "wait", "wait"],
     "aserial": ["read_error", "write_error", "disconnect", "stop", "wait", "wait"],
-    "tcp": ["read_error", "write_error", "both_errors", "peer_eof", "peer_reset", "disconnect", "stop", "wait", "wait"],
+    "tcp": ["read_error_stop_in_callback", "read_error", "write_error", "both_errors", "peer_eof", "peer_reset", "disconnect", "stop", "wait", "wait"],
     "atcp": ["read_error", "write_error", "peer_eof", "peer_reset", "disconnect", "stop", "wait", "wait"],
 }
 
@@ -189,6 +189,34 @@ def run(case):
                         exc = _real_serial.SerialException("device gone") if flavour in ("serial", "aserial") else OSError(104, "reset")
                         conn.fail_read(exc)
                         losses.append({"conn": conn.conn_id, "t": sim.now, "user": False, "kind": name})
+                    elif name == "read_error_stop_in_callback" and conn is not None and not is_async:
+                        # the application reacts to the loss by stopping the gateway - from inside its on_conn_lost callback,
+                        # ie in the thread that noticed the loss, before the library has gone on to re-dial
+                        exc = _real_serial.SerialException("device gone") if flavour == "serial" else OSError(104, "reset")
+                        box = {}
+
+                        def stop_from_callback(_kind, _exc, box=box):
+                            if "called" in box:
+                                return
+                            box["called"] = sim.now
+                            try:
+                                gateway.stop()
+                            except Exception as err:  # pylint: disable=broad-except
+                                box["raised"] = repr(err)
+                            box["returned"] = sim.now
+
+                        world.conn_hook = stop_from_callback
+                        conn.fail_read(exc)
+                        losses.append({"conn": conn.conn_id, "t": sim.now, "user": False, "kind": "read_error"})
+                        world.advance(2.6 * rt + 0.7)
+                        world.conn_hook = None
+                        if "called" in box:
+                            stop_called, stop_returned = box["called"], box.get("returned", box["called"])
+                            probes["stop_from_lost_callback"] = 1
+                            probes["stop_runs"] = 1
+                            if "raised" in box:
+                                violations.append(_vio("stop-raised", {"exc": box["raised"], "where": "inside on_conn_lost"}, flavour=flavour))
+                            break
                     elif name == "write_error" and conn is not None and 1 in gateway.sensors and 1 in gateway.sensors[1].children:
                         exc = _real_serial.SerialException("write failed") if flavour in ("serial", "aserial") else BrokenPipeError(32, "Broken pipe")
                         conn.fail_write(exc)
